@@ -272,7 +272,14 @@ impl TypeChecker {
                     for ((_, param_name, _), arg) in type_parameters.iter().zip(type_args.iter()) {
                         let arg_type = self.type_from_annotation(arg)?;
                         concrete_type_args.push(arg_type.clone());
-                        substitution.append(TypeVariable::new(param_name), arg_type);
+                        substitution
+                            .append(TypeVariable::new(param_name), arg_type)
+                            .map_err(|e| {
+                                Box::new(TypeCheckError::SubstitutionError(
+                                    param_name.to_string(),
+                                    e,
+                                ))
+                            })?;
                     }
 
                     // Create instantiated struct with substituted field types
@@ -1060,7 +1067,9 @@ impl TypeChecker {
                         let substitution = type_parameters.iter().zip(variables.iter()).fold(
                             Substitution::empty(),
                             |mut subst, ((_, name, _), variable)| {
-                                subst.append(TypeVariable::new(name), Type::TVar(variable.clone()));
+                                subst
+                                    .append(TypeVariable::new(name), Type::TVar(variable.clone()))
+                                    .expect("a fresh type variable can always be substituted");
                                 subst
                             },
                         );
